@@ -83,6 +83,7 @@ func ToFunction(fn any) (Function, error) {
 var (
 	systemAnyType    = reflect.TypeOf((*system.Any)(nil)).Elem()
 	protoMessageType = reflect.TypeOf((*proto.Message)(nil)).Elem()
+	errorType        = reflect.TypeOf((*error)(nil)).Elem()
 )
 
 // validateFunc verifies that the input reflect value represents a
@@ -107,7 +108,7 @@ func validateFunc(rv reflect.Value) error {
 			}
 		}
 	}
-	if rv.Type().NumOut() != 2 || rv.Type().Out(0) != reflect.TypeOf(system.Collection{}) || rv.Type().Out(1).Name() != "error" {
+	if rv.Type().NumOut() != 2 || rv.Type().Out(0) != reflect.TypeOf(system.Collection{}) || rv.Type().Out(1) != errorType {
 		errs = append(errs, errInvalidReturn)
 	}
 	return errors.Join(errs...)
